@@ -11,15 +11,18 @@
           (hn : the first n periods lie inside 0001..9999) : (iter r n).1 = Spec.RRule.occ a n
 
   with `Supported` = the negation of the known defect classes D-C01a/c/d/e/f.  What is proved of it
-  here is `iter_eq_spec_daily_partial`: FREQ=DAILY with any INTERVAL ≥ 1, BYMONTH, BYMONTHDAY,
-  BYYEARDAY, BYDAY, COUNT, UNTIL.  Missing: the other six frequencies' period/cursor invariants on
-  top of the proved `advance_*` / `dayset_*` lemmas, the three computed masks (BYWEEKNO, nth BYDAY,
-  BYEASTER), BYSETPOS, and non-default BYHOUR/BYMINUTE/BYSECOND.  Everything else below — including
+  here is `iter_eq_spec_daily_partial` and `iter_eq_spec_yearly_monthly_partial`: FREQ = DAILY,
+  MONTHLY or YEARLY with any INTERVAL ≥ 1, BYMONTH, BYMONTHDAY, BYYEARDAY, plain BYDAY (any BYDAY for
+  DAILY), the defaults taken from the start, COUNT, UNTIL.  Missing: WEEKLY (truncated first week)
+  and the three sub-daily frequencies (the model skips empty periods, so the refinement is not
+  period-by-period), the three computed masks (BYWEEKNO, nth BYDAY, BYEASTER), BYSETPOS, and
+  non-default BYHOUR/BYMINUTE/BYSECOND.  Everything else below — including
   `iter_strictMono` for all seven frequencies — is proved for ALL rules / all argument sets, with no
   `Supported` hypothesis (so also inside the known-defect classes).
 -/
 import DateutilVerif.Proofs.RRuleDaily
 import DateutilVerif.Proofs.RRuleMonoAll
+import DateutilVerif.Proofs.RRuleYM
 
 namespace C01
 open RRule Cal RRule.Tables
@@ -234,6 +237,16 @@ theorem iter_eq_spec_daily_partial (a : Args) (r : Rule) (da : DailyArgs a) (h :
     (iter r n).1 = Spec.RRule.occ a n :=
   iter_eq_spec_daily da h n hn
 
+/-- **`iter_eq_spec`, proved portion, YEARLY / MONTHLY**: INTERVAL ≥ 1, valid start, any BYMONTH /
+    BYMONTHDAY (members ≠ 0) / BYYEARDAY / plain BYDAY — or none, in which case the month and month
+    day come from the start —, any COUNT / UNTIL: exactly the specification's recurrence set, for every
+    number of periods ending by year 9999. -/
+theorem iter_eq_spec_yearly_monthly_partial (a : Args) (r : Rule) (ya : YMArgs a) (h : construct a = .ok r)
+    (n : Nat) (hy : a.freq = 0 → a.dtstart.y + n * a.interval ≤ 9999)
+    (hm : a.freq = 1 → (a.dtstart.y * 12 + (a.dtstart.m - 1) + n * a.interval) / 12 ≤ 9999) :
+    (iter r n).1 = Spec.RRule.occ a n :=
+  iter_eq_spec_ym ya h n hy hm
+
 /-! ### non-vacuity and the known-finding witnesses reproduced by the model -/
 
 def dt (y m d : Int) (hh : Int := 0) (mm : Int := 0) (ss : Int := 0) : DT := { y, m, d, hh, mm, ss, us := 0 }
@@ -248,6 +261,11 @@ def dates (x : Py.R Rule) (n : Nat) : List (Int × Int × Int) :=
 example : DailyArgs { freq := 3, dtstart := dt 2024 2 28 9 30, interval := 3, bymonth := some [2, 3],
                       byweekday := some [(4, 0), (5, 0)], count := some 4 } :=
   ⟨rfl, by decide, by decide, rfl, rfl, rfl, rfl, rfl, rfl, by intro x hx; simp at hx⟩
+-- a YMArgs instance: the 31st of every 2nd month from 2024-01-31 (months without a 31st are skipped, never coerced)
+example : YMArgs { freq := 1, dtstart := dt 2024 1 31 8, interval := 2, count := some 3 } :=
+  ⟨Or.inr rfl, by decide, by decide, rfl, rfl, rfl, rfl, rfl, rfl, by intro x hx; simp at hx, by intro w hw; simp at hw⟩
+example : dates (construct { freq := 1, dtstart := dt 2024 1 31 8, interval := 2, count := some 3 }) 6
+    = [(2024, 1, 31), (2024, 3, 31), (2024, 5, 31)] := by decide +kernel
 example : dates (construct { freq := 3, dtstart := dt 2024 2 28 9 30, interval := 1, bymonthday := some [-1], count := some 3 }) 70
     = [(2024, 2, 29), (2024, 3, 31), (2024, 4, 30)] := by decide +kernel
 
